@@ -761,6 +761,11 @@ pub fn grid(op: &str, limit: usize) -> (usize, Vec<(Args, Outcome)>) {
             for d in crate::ops_more::ILL_FORMED {
                 try_one(mk(&[("doc", d)]), &mut n, &mut bad);
             }
+            // token-level mutants of well-formed documents that an independent parser (expat) rejects: tools/gen_illformed.py
+            for line in crate::ops_more::ILL_FORMED_MUTANTS.lines() {
+                let d = crate::ops_more::unescape_line(line);
+                try_one(mk(&[("doc", d.as_str())]), &mut n, &mut bad);
+            }
         }
         ["info", "roundtrip"] => {
             for d in crate::ops_more::ROUNDTRIP_DOCS {
